@@ -44,7 +44,7 @@ PATTERNS = ["R", "T", "D"]
 BUFS = ["max", "retry", "ladder"]
 
 
-def session_case(rng, pair, profile="small", pattern=None, bufs=None, pingpong=None, big_node=None):
+def session_case(rng, pair, profile="small", pattern=None, bufs=None, pingpong=None, big_node=None, deep=False):
     """Concretise a TLC pair {par, A, B} into an engine case."""
     n = len(pair["par"])
     plan = stretch_plan(rng, n, profile)
@@ -60,6 +60,10 @@ def session_case(rng, pair, profile="small", pattern=None, bufs=None, pingpong=N
         "pattern": pattern or rng.choice(PATTERNS),
         "bufs": bufs or rng.choice(BUFS),
         "pingpong": (rng.random() < 0.35) if pingpong is None else pingpong,
+        # one subscribe + push exchange (tcp-syncer send_push) before the polling sessions
+        "push": rng.random() < 0.25,
+        # expensive cache clauses of Trace_Sync (antichain), used by check C20
+        "deep": deep,
     }
 
 
@@ -182,7 +186,7 @@ def _corruptions(lines, base_case, first_id):
     return out
 
 
-def build_cases(ctx, pairs, pingpong=None):
+def build_cases(ctx, pairs, pingpong=None, deep=False, limit=240):
     cases = []
     pinned = pinned_cases(ctx.thorough)
     for name, c in pinned:
@@ -190,7 +194,7 @@ def build_cases(ctx, pairs, pingpong=None):
     if ctx.thorough:
         sel = pairs
     else:
-        sel = verif.sample(ctx.rng, pairs, 240)
+        sel = verif.sample(ctx.rng, pairs, limit)
     for k, p in enumerate(sel):
         prof = "small"
         big = None
@@ -202,7 +206,7 @@ def build_cases(ctx, pairs, pingpong=None):
         elif r < 0.4:
             prof = "mixed"
         pp = None if pingpong is None else (ctx.rng.random() < pingpong)
-        cases.append(session_case(ctx.rng, p, prof, big_node=big, pingpong=pp))
+        cases.append(session_case(ctx.rng, p, prof, big_node=big, pingpong=pp, deep=deep))
     return cases, len(pinned)
 
 
